@@ -136,30 +136,31 @@ Qed.
 (* ---- soundness of the correspondence check's Coq-side evaluation: the 80-bit interval instance of
    every density function encloses the real-number instance whenever its arguments do ---- *)
 From MiniMcmc Require Import Proofs.DensitySound.
-From Interval Require Import Interval Xreal.
 
 Theorem C15_interval_sound_gauss : forall M0 M1 A B C D X0 X1 m0 m1 a b c d x0 x1,
   enc M0 m0 -> enc M1 m1 -> enc A a -> enc B b -> enc C c -> enc D d -> enc X0 x0 -> enc X1 x1 ->
   enc (g2_logp dnumI M0 M1 A B C D X0 X1) (g2_logp dnumR m0 m1 a b c d x0 x1) /\
   enc (g2_unnorm dnumI M0 M1 A B C D X0 X1) (g2_unnorm dnumR m0 m1 a b c d x0 x1) /\
   enc (dg_logp dnumI M0 M1 A B C D X0 X1) (dg_logp dnumR m0 m1 a b c d x0 x1) /\
-  enc (fst (dg_grad dnumI M0 M1 A B C D X0 X1)) (fst (dg_grad dnumR m0 m1 a b c d x0 x1)) /\
-  enc (snd (dg_grad dnumI M0 M1 A B C D X0 X1)) (snd (dg_grad dnumR m0 m1 a b c d x0 x1)).
+  (enc (fst (dg_grad dnumI M0 M1 A B C D X0 X1)) (fst (dg_grad dnumR m0 m1 a b c d x0 x1)) /\
+   enc (snd (dg_grad dnumI M0 M1 A B C D X0 X1)) (snd (dg_grad dnumR m0 m1 a b c d x0 x1))).
 Proof.
-  intros. repeat split;
-    [ apply g2_logp_sound | apply g2_unnorm_sound | apply dg_logp_sound
-    | apply (dg_grad_sound M0 M1 A B C D X0 X1 m0 m1 a b c d x0 x1)
-    | apply (dg_grad_sound M0 M1 A B C D X0 X1 m0 m1 a b c d x0 x1) ]; assumption.
+  intros M0 M1 A B C D X0 X1 m0 m1 a b c d x0 x1 H0 H1 Ha Hb Hc Hd Hx0 Hx1.
+  split; [apply g2_logp_sound; assumption|].
+  split; [apply g2_unnorm_sound; assumption|].
+  split; [apply dg_logp_sound; assumption|].
+  apply dg_grad_sound; assumption.
 Qed.
 
 Theorem C15_interval_sound_rosenbrock : forall A B X Y a b x y,
   enc A a -> enc B b -> enc X x -> enc Y y ->
   enc (rb2_logp dnumI A B X Y) (rb2_logp dnumR a b x y) /\
-  enc (fst (rb2_grad dnumI A B X Y)) (fst (rb2_grad dnumR a b x y)) /\
-  enc (snd (rb2_grad dnumI A B X Y)) (snd (rb2_grad dnumR a b x y)).
+  (enc (fst (rb2_grad dnumI A B X Y)) (fst (rb2_grad dnumR a b x y)) /\
+   enc (snd (rb2_grad dnumI A B X Y)) (snd (rb2_grad dnumR a b x y))).
 Proof.
-  intros. repeat split;
-    [ apply rb2_logp_sound | apply (rb2_grad_sound A B X Y a b x y) | apply (rb2_grad_sound A B X Y a b x y) ]; assumption.
+  intros A B X Y a b x y Ha Hb Hx Hy.
+  split; [apply rb2_logp_sound; assumption|].
+  apply rb2_grad_sound; assumption.
 Qed.
 
 Theorem C15_interval_sound_rosenbrock_nd : forall XS xs,
@@ -171,8 +172,9 @@ Theorem C15_interval_sound_iso : forall S s FROM TO from to,
   enc (iso_logp dnumI S FROM TO) (iso_logp dnumR s from to) /\
   enc (iso_unnorm dnumI S TO) (iso_unnorm dnumR s to).
 Proof.
-  intros S s FROM TO from to Hs Hf Ht. split;
-    [ apply iso_logp_sound | apply iso_unnorm_sound ]; assumption.
+  intros S s FROM TO from to Hs Hf Ht.
+  split; [apply iso_logp_sound; assumption|].
+  apply iso_unnorm_sound; assumption.
 Qed.
 
 Print Assumptions C15_gauss_norm_vs_unnorm.
